@@ -176,12 +176,18 @@ type Options struct {
 	AlgebraEvery int
 	// Algebra: generate a NewAlgebraCase.
 	Algebra bool
+	// HierarchyEvery / Hierarchy: the same for NewHierarchyCase.
+	HierarchyEvery int
+	Hierarchy      bool
 }
 
 // NewCase generates one case from the PRNG.
 func NewCase(r *rand.Rand, name string, opt Options) *Case {
 	if opt.Algebra {
 		return NewAlgebraCase(r, name)
+	}
+	if opt.Hierarchy {
+		return NewHierarchyCase(r, name)
 	}
 	g := &modelGen{r: r, rels: map[string][]string{}, hasPar: map[string]bool{}, parents: map[string][]string{}, feat: map[string]bool{}}
 	if opt.Wide {
@@ -908,6 +914,166 @@ func NewAlgebraCase(r *rand.Rand, name string) *Case {
 			}
 		}
 	}
+	r.Shuffle(len(c.Tuples), func(i, j int) { c.Tuples[i], c.Tuples[j] = c.Tuples[j], c.Tuples[i] })
+	return c
+}
+
+// NewHierarchyCase generates the classic hierarchy shape: nested groups (group#member in member),
+// a folder forest (parent: [folder]) whose viewer relation is inherited from the parent (recursive
+// tuple-to-userset), documents in folders inheriting viewer (optionally minus blocked / plus editor),
+// with seeded variations of each definition. Chains of 3-5 levels occur in most cases; they are what
+// the engines' recursive strategies, tupleset reads and iterator caches are made for, and they are
+// rare under NewCase's sparse 3-id universe.
+func NewHierarchyCase(r *rand.Rand, name string) *Case {
+	ids := wideIDs
+	feat := map[string]bool{"hierarchy": true, "ttu": true, "recursive-ttu": true}
+	td := func(t string) *openfgav1.TypeDefinition {
+		return &openfgav1.TypeDefinition{Type: t, Relations: map[string]*openfgav1.Userset{}, Metadata: &openfgav1.Metadata{Relations: map[string]*openfgav1.RelationMetadata{}}}
+	}
+	def := func(d *openfgav1.TypeDefinition, rel string, rw *openfgav1.Userset, restr ...*openfgav1.RelationReference) {
+		d.Relations[rel] = rw
+		d.Metadata.Relations[rel] = &openfgav1.RelationMetadata{DirectlyRelatedUserTypes: restr}
+	}
+	group, folder, doc := td("group"), td("folder"), td("doc")
+	nested := r.Intn(4) != 0
+	if nested {
+		def(group, "member", this(), Ref("user", "", false, ""), Ref("group", "member", false, ""))
+		feat["recursive-userset"] = true
+	} else {
+		def(group, "member", this(), Ref("user", "", false, ""))
+	}
+	def(folder, "parent", this(), Ref("folder", "", false, ""))
+	fv := []*openfgav1.RelationReference{Ref("user", "", false, "")}
+	if r.Intn(3) != 0 {
+		fv = append(fv, Ref("group", "member", false, ""))
+		feat["userset"] = true
+	}
+	if r.Intn(5) == 0 {
+		fv = append(fv, Ref("user", "", true, ""))
+		feat["wildcard"] = true
+	}
+	switch r.Intn(5) {
+	case 0:
+		def(folder, "blocked", this(), Ref("user", "", false, ""))
+		def(folder, "viewer", difference(union(this(), ttu("parent", "viewer")), computed("blocked")), fv...)
+		feat["exclusion"] = true
+	case 1:
+		def(folder, "owner", this(), Ref("user", "", false, ""))
+		def(folder, "viewer", union(this(), computed("owner"), ttu("parent", "viewer")), fv...)
+		feat["computed"] = true
+	default:
+		def(folder, "viewer", union(this(), ttu("parent", "viewer")), fv...)
+	}
+	def(doc, "parent", this(), Ref("folder", "", false, ""))
+	switch r.Intn(5) {
+	case 0:
+		def(doc, "viewer", ttu("parent", "viewer"))
+	case 1:
+		def(doc, "blocked", this(), Ref("user", "", false, ""), Ref("group", "member", false, ""))
+		def(doc, "viewer", difference(ttu("parent", "viewer"), computed("blocked")))
+		feat["exclusion"] = true
+	case 2:
+		def(doc, "editor", this(), Ref("user", "", false, ""))
+		def(doc, "viewer", union(computed("editor"), ttu("parent", "viewer")))
+		feat["computed"] = true
+	case 3:
+		def(doc, "editor", this(), Ref("user", "", false, ""), Ref("group", "member", false, ""))
+		def(doc, "viewer", intersection(computed("editor"), ttu("parent", "viewer")))
+		feat["intersection"] = true
+	default:
+		def(doc, "viewer", union(this(), ttu("parent", "viewer")), Ref("user", "", false, ""))
+	}
+	model := &openfgav1.AuthorizationModel{SchemaVersion: "1.1", Conditions: map[string]*openfgav1.Condition{},
+		TypeDefinitions: []*openfgav1.TypeDefinition{{Type: "user"}, group, folder, doc}}
+	perm := &openfgav1.AuthorizationModel{SchemaVersion: "1.1", Conditions: map[string]*openfgav1.Condition{}, TypeDefinitions: []*openfgav1.TypeDefinition{{Type: "user"}}}
+	var all []*openfgav1.RelationReference
+	for _, t := range typeOrder {
+		all = append(all, Ref(t, "", false, ""), Ref(t, "", true, ""))
+	}
+	for _, d := range []*openfgav1.TypeDefinition{group, folder, doc} {
+		for rel := range d.Relations {
+			all = append(all, Ref(d.Type, rel, false, ""))
+		}
+	}
+	for _, d := range []*openfgav1.TypeDefinition{group, folder, doc} {
+		p := td(d.Type)
+		for rel := range d.Relations {
+			def(p, rel, this(), all...)
+		}
+		perm.TypeDefinitions = append(perm.TypeDefinitions, p)
+	}
+	c := &Case{Name: name, Model: model, Permissive: perm, Features: feat, IDs: ids, Contexts: []*structpb.Struct{nil}}
+	seen := map[string]bool{}
+	add := func(o, rel, u string) {
+		k := o + "#" + rel + "@" + u
+		if !seen[k] && u != o+"#"+rel {
+			seen[k] = true
+			c.Tuples = append(c.Tuples, &openfgav1.TupleKey{Object: o, Relation: rel, User: u})
+		}
+	}
+	pick := func(t string) string { return t + ":" + ids[t][r.Intn(len(ids[t]))] }
+	// folder forest: folder i has a parent among the earlier ones most of the time (chains), sometimes two
+	fs := ids["folder"]
+	for i := 1; i < len(fs); i++ {
+		if r.Intn(5) != 0 {
+			add("folder:"+fs[i], "parent", "folder:"+fs[r.Intn(i)])
+		}
+		if r.Intn(6) == 0 {
+			add("folder:"+fs[i], "parent", "folder:"+fs[r.Intn(i)])
+		}
+	}
+	if r.Intn(8) == 0 { // a parent cycle
+		add("folder:"+fs[0], "parent", "folder:"+fs[len(fs)-1])
+		feat["tuple-cycle"] = true
+	}
+	for _, d := range ids["doc"] {
+		if r.Intn(6) != 0 {
+			add("doc:"+d, "parent", pick("folder"))
+		}
+		if r.Intn(5) == 0 {
+			add("doc:"+d, "parent", pick("folder"))
+		}
+	}
+	gs := ids["group"]
+	for i := range gs {
+		for n := r.Intn(3); n > 0; n-- {
+			add("group:"+gs[i], "member", pick("user"))
+		}
+		if nested && i+1 < len(gs) && r.Intn(3) != 0 {
+			add("group:"+gs[i], "member", "group:"+gs[i+1+r.Intn(len(gs)-i-1)]+"#member")
+		}
+	}
+	if nested && r.Intn(6) == 0 {
+		add("group:"+gs[len(gs)-1], "member", "group:"+gs[0]+"#member")
+		feat["tuple-cycle"] = true
+	}
+	anyUser := func(d *openfgav1.TypeDefinition, rel string) string {
+		rr := d.Metadata.Relations[rel].GetDirectlyRelatedUserTypes()
+		x := rr[r.Intn(len(rr))]
+		switch {
+		case x.GetWildcard() != nil:
+			return x.GetType() + ":*"
+		case x.GetRelation() != "":
+			return pick(x.GetType()) + "#" + x.GetRelation()
+		}
+		return pick(x.GetType())
+	}
+	for _, d := range []*openfgav1.TypeDefinition{folder, doc} {
+		for rel := range d.Relations {
+			if rel == "parent" || len(d.Metadata.Relations[rel].GetDirectlyRelatedUserTypes()) == 0 {
+				continue
+			}
+			for n := 2 + r.Intn(5); n > 0; n-- {
+				add(pick(d.Type), rel, anyUser(d, rel))
+			}
+		}
+	}
+	// a few left-over tuples that are invalid for the model
+	for n := r.Intn(4); n > 0; n-- {
+		add(pick("doc"), "viewer", pick("group"))
+		feat["leftover"] = true
+	}
+	sort.Slice(c.Tuples, func(i, j int) bool { return TupleString(c.Tuples[i]) < TupleString(c.Tuples[j]) })
 	r.Shuffle(len(c.Tuples), func(i, j int) { c.Tuples[i], c.Tuples[j] = c.Tuples[j], c.Tuples[i] })
 	return c
 }
